@@ -51,7 +51,7 @@ func vrS1_intersection(dom string) {
 }
 
 func Harness_C19_s1_containment()             { vrS1_containment("RUF") }
-func Harness_C19_s1_containment_fpx_thorough() { vrS1_containment("FPX") }
+func vrTODO_C19_s1_containment_fpx() { vrS1_containment("FPX") }
 
 func vrS1_containment(dom string) {
 	vr.Domain(dom)
@@ -68,7 +68,7 @@ func vrS1_containment(dom string) {
 }
 
 func Harness_C19_s1_complement_addpoint()             { vrS1_complement_addpoint("RUF") }
-func Harness_C19_s1_complement_addpoint_fpx_thorough() { vrS1_complement_addpoint("FPX") }
+func vrTODO_C19_s1_complement_addpoint_fpx() { vrS1_complement_addpoint("FPX") }
 
 func vrS1_complement_addpoint(dom string) {
 	vr.Domain(dom)
@@ -90,7 +90,7 @@ func vrS1_complement_addpoint(dom string) {
 }
 
 func Harness_C19_s1_project_center()             { vrS1_project_center("RUF") }
-func Harness_C19_s1_project_center_fpx_thorough() { vrS1_project_center("FPX") }
+func vrTODO_C19_s1_project_center_fpx() { vrS1_project_center("FPX") }
 
 func vrS1_project_center(dom string) {
 	vr.Domain(dom)
